@@ -77,6 +77,66 @@ def bases():
     return out
 
 
+def raw_name_modules(start, tier):
+    """Debug names that are raw identifiers (`r#struct`): what is printed for them is not fixed by any property, so there is no
+    oracle; instead every spelling of the same rename is compared with the canonical spelling `name(N)` of the same request,
+    expansion against expansion, for all values (the spellings must stay interchangeable whatever N is)."""
+    from .runner import Harness
+    def forms(n, shorthand):
+        fs = [f'Debug(name({n}))', f'Debug(name = {n})', f'Debug(name = "{n}")', f'Debug(name("{n}"))', f'Debug(rename = {n})', f'Debug(rename("{n}"))']
+        if shorthand:
+            fs += [f'Debug = {n}', f'Debug = "{n}"']
+        return fs
+    def decl(modname, tform, vform, fform, tform_e):
+        return f"""pub mod {modname} {{
+    use educe::Educe;
+    use crate::support::dbg::Val;
+    #[derive(Educe)]
+    #[educe({tform})]
+    pub struct St {{ #[educe({fform})] pub x: Val<1>, pub y: Val<2> }}
+    #[derive(Educe)]
+    #[educe({tform_e})]
+    pub enum En {{ #[educe({vform})] A {{ f: Val<3>, #[educe({fform})] g: Val<4> }}, #[educe({vform})] B(Val<5>), C }}
+}}
+"""
+    tf, vf, ff = forms('r#struct', True), forms('r#fn', True), forms('r#type', True)
+    te = [x for x in forms('r#enum', True)]
+    mods = []
+    n = start
+    k = max(len(tf), len(vf), len(ff))
+    for j in range(1, k):
+        if tier == 'quick' and j not in (1, 2, 6, 7):
+            continue
+        a = decl('a', tf[0], vf[0], ff[0], te[0])
+        b = decl('b', tf[j % len(tf)], vf[j % len(vf)], ff[j % len(ff)], te[j % len(te)])
+        h = Harness('h_same', unwind=72, covers=['reached'])
+        body = 'use crate::support::dbg::*;\n' + a + b + h.attrs() + '''pub fn h_same() {
+    let (p, q, r): (u8, u8, u8) = (kani::any(), kani::any(), kani::any());
+    let which: u8 = kani::any();
+    log_reset();
+    let (b1, r1) = render(&a::St { x: Val(p), y: Val(q) }, false);
+    log_reset();
+    let (b2, r2) = render(&b::St { x: Val(p), y: Val(q) }, false);
+    kani::cover!(true, "reached");
+    assert!(r1.is_ok() && r2.is_ok() && !b1.overflow && b1.same(&b2), "two spellings of the same rename print differently (struct)");
+    let (ea, eb) = match which % 3 {
+        0 => (a::En::A { f: Val(p), g: Val(q) }, b::En::A { f: Val(p), g: Val(q) }),
+        1 => (a::En::B(Val(r)), b::En::B(Val(r))),
+        _ => (a::En::C, b::En::C),
+    };
+    log_reset();
+    let (b3, r3) = render(&ea, false);
+    log_reset();
+    let (b4, r4) = render(&eb, false);
+    assert!(r3.is_ok() && r4.is_ok() && !b3.overflow && b3.same(&b4), "two spellings of the same rename print differently (enum)");
+}
+'''
+        mods.append(Module(f'm{n:04d}', f'raw-identifier names: `{tf[0]}` vs `{tf[j % len(tf)]}` (type), `{vf[j % len(vf)]}` (variant), `{ff[j % len(ff)]}` (field)', body, [h],
+                           sample=dict(canonical=tf[0], alternative=tf[j % len(tf)]), functions=FUNCTIONS))
+        n += 1
+    return mods
+
+
 STRUCTURAL = ('grouping', 'traitorder', 'paramorder')
 
 
@@ -140,6 +200,7 @@ def gen(tier, seed):
     # literal defaults: `Default = lit`, `expression = lit`, `expr(lit)`, ... must all route the literal the same way
     from . import p_c08
     mods += p_c08.literal_modules(len(mods), tier)
+    mods += raw_name_modules(len(mods), tier)
     return mods
 
 
